@@ -104,16 +104,22 @@ def check_elements(chk) -> None:
     fm = FlowMap(fi.node)
     # every strand/stem text is cut from the structure's own dot-bracket
     cons = [c for c in ast.walk(fi.node) if isinstance(c, ast.Call) and astq.dotted(c.func) in ("Strand.from_bpseq_entries", "Stem.from_bpseq_entries")]
+    from sa.defuse import Inliner
+
+    inl = Inliner(fi.node)
     for c in cons:
         db = c.args[-1] if c.args else None
-        chk.expect(
-            db is not None and norm(db) == "self.dot_bracket.structure",
-            "elements-dotbracket",
-            fi.site(c),
-            "strand text is sliced from self.dot_bracket.structure",
-            f"`{norm(db) if db is not None else None}` is not the structure's own dot-bracket: strand structure text differs from the reported notation",
-            K(fi, f"dotbracket:{norm(c)[:50]}"),
-        )
+        if db is None:
+            chk.error("elements-dotbracket", fi.site(c), "no dot-bracket argument")
+            continue
+        db = inl.inline(db, fm.stmt_of(c))
+        t = norm(db)
+        if t == "self.dot_bracket.structure":
+            chk.ok("elements-dotbracket", fi.site(c), "strand text is sliced from self.dot_bracket.structure")
+        elif t.startswith("self.") and t != "self.dot_bracket.structure" and (t.endswith(".structure") or "fcfs" in t or "__dict__" in t):
+            chk.violation("elements-dotbracket", fi.site(c), f"`{t[:90]}` is not the structure's own dot-bracket (self.dot_bracket.structure): strand structure text differs from the reported notation", K(fi, f"dotbracket:{norm(c)[:50]}"), found=t)
+        else:
+            chk.error("elements-dotbracket", fi.site(c), f"dot-bracket argument `{t[:90]}` not resolved")
     chk.floor("elements-dotbracket", 5)
     # stems + stops
     sl = [l for l in fi.node.body if isinstance(l, ast.For) and norm(l.iter).endswith("__stems_entries")]
